@@ -63,6 +63,7 @@ def setup(rep, tier):
     rep.minimum('R18.7', 2)
     rep.minimum('R18.8', 1)
     rep.minimum('R18.9', 2)
+    rep.minimum('R18.10', 1)
 
 
 def within(v, lo, hi):
@@ -875,7 +876,93 @@ def r18_9(rep, prog):
     return n
 
 
+# ------------------------------------------------------------------ R18.10
+def _addr_field_arg(call, k):
+    """field name F when argument k of the call is `&x->F` / `&x.F`"""
+    if k >= len(call[2]):
+        return None
+    a = sx.strip(call[2][k])
+    if sx.kind(a) == 'addr' and sx.kind(sx.strip(a[1])) == 'field':
+        return sx.strip(a[1])[3]
+    return None
+
+
+def r18_10(rep, prog):
+    """"quantising on the encoder side and dequantising gives the values the decoder will reconstruct" for the gains of
+    the redundant (LBRR) frames: the decoder that plays an LBRR frame has not seen the regular frame it replaces, so the
+    previous-index its dequantiser starts from is the index at the START of that frame.  The regular quantiser advances a
+    running index (passed by address to silk_gains_quant) and takes a snapshot of it first; the LBRR re-quantisation, which
+    runs after the regular quantiser in the frame encoder, must start from the snapshot, not from the running index."""
+    n = 0
+    qname, dname = 'silk_gains_quant', 'silk_gains_dequant'
+    if not (prog.has_fn(qname) and prog.has_fn(dname)):
+        return 0
+    kq = prog.fn(qname).param_index('prev_ind')
+    kd = prog.fn(dname).param_index('prev_ind')
+    if kq is None or kd is None:
+        rep.unresolved('R18.10', '%s: prev_ind parameter not found' % prog.config)
+        return 0
+    # the regular quantiser's running index and its snapshot(s)
+    running, snaps, advancers = set(), set(), set()
+    for g in prog.functions_all:
+        if not g.file.startswith('silk/'):
+            continue
+        cf = None
+        for c in g.calls():
+            if sx.callee_name(c) == qname:
+                fld = _addr_field_arg(c, kq)
+                if fld is None:
+                    continue
+                running.add(fld)
+                advancers.add(g.name)
+                cf = cf or cfgm.CFG(g)
+                pos = [(b, i) for b, i, s_ in cf.positions() if any(x is c for x in sx.walk(s_))]
+                for b2, i2, x in cf.find(lambda x: x[0] == 'assign' and sx.kind(sx.strip(x[2])) == 'field' and sx.strip(x[2])[3] == fld and sx.kind(sx.strip_paren(x[1])) == 'field'):
+                    if pos and (cf.dominates(b2, pos[0][0]) and (b2 != pos[0][0] or i2 < pos[0][1])):
+                        snaps.add(sx.strip_paren(x[1])[3])
+    if not running or not snaps:
+        rep.unresolved('R18.10', '%s: running gain index / snapshot not identified (%s / %s)' % (prog.config, sorted(running), sorted(snaps)))
+        return 0
+    for f in prog.functions_all:
+        if not f.file.startswith('silk/') or 'LBRR' not in f.name:
+            continue
+        lbrr_idx = {_addr_field_arg(c, kd) for c in f.calls() if sx.callee_name(c) == dname} - {None} - running
+        if not lbrr_idx:
+            continue
+        # does the regular quantiser run before this function in the frame encoder?
+        after = False
+        for e in prog.functions_all:
+            names = [sx.callee_name(c) for c in e.calls()]
+            if f.name in names and any(a in names for a in advancers):
+                ce = cfgm.CFG(e)
+                pa = [b for b, i, s_ in ce.positions() for x in sx.walk(s_) if sx.kind(x) == 'call' and sx.callee_name(x) in advancers]
+                pl = [b for b, i, s_ in ce.positions() for x in sx.walk(s_) if sx.kind(x) == 'call' and sx.callee_name(x) == f.name]
+                if pa and pl and all(any(ce.dominates(a, l) for a in pa) for l in pl):
+                    after = True
+        for x in f.all_nodes():
+            if x[0] == 'assign' and sx.kind(sx.strip_paren(x[1])) == 'field' and sx.strip_paren(x[1])[3] in lbrr_idx:
+                n += 1
+                rep.functions.add(f.name)
+                reads = {y[3] for y in sx.walk(x[2]) if sx.kind(y) == 'field'}
+                inst = '%s:%s starts the LBRR gain re-quantisation from the index the decoder will hold (`%s`)' % (prog.config, f.name, sx.show(x)[:60])
+                where = '%s:%s' % (f.file, sx.line(x))
+                if reads & running and after:
+                    rep.violated('R18.10', inst, where, 'the previous-index is taken from the running index `%s` after the regular quantiser (%s) has advanced it to the END of this frame; the decoder that plays the LBRR frame starts from the index at the START of the frame (snapshot `%s`): when the gain rises by more than 16 steps inside the frame the two dequantise the same indices to different gains' % (
+                        sorted(reads & running)[0], sorted(advancers)[0], sorted(snaps)[0]), key='%s:lbrr-prev-index' % re_norm(f.name))
+                elif reads & snaps or not after:
+                    rep.holds('R18.10', inst, where, 'reads the snapshot %s' % sorted(reads & snaps) if reads & snaps else 'the regular quantiser has not run yet')
+                else:
+                    rep.unresolved('R18.10', inst + ': source of the previous index not recognised', where)
+    return n
+
+
+def re_norm(name):
+    import re
+    return re.sub(r'_(FLP|FIX)$', '', name)
+
+
 def check(rep, prog, tier):
+    r18_10(rep, prog)
     r18_7(rep, prog)
     r18_8(rep, prog)
     r18_9(rep, prog)
